@@ -315,7 +315,9 @@ def _replay_c04(o, restricted, nchol):
         dev = float(np.abs(Hrec - Hm).max())
         # second native witness: one real propagate() step against the importance-sampling formula of the statement
         dev2, rec2 = native.phaseless_weight_deviation(restricted)
-        o["replayed"] = bool(dev > 1e-6 or dev2 > 1e-9)
+        dev3, rec3 = (0.0, {}) if restricted else native.trotprop_deviation()
+        o["replayed"] = bool(dev > 1e-6 or dev2 > 1e-9 or dev3 > 1e-10)
+        rec2 = dict(rec2, trotter_propagator=rec3)
         o["witness"] = dict(o.get("witness") or {}, native=dict(check="-h0_prop + sum h1_mod a+a + 1/2 sum (L_g - l_g)^2 == H on the Fock space (norb 2, (1,1))", max_deviation=dev, nchol=nchol),
                             native_step=dict(check="weights after one real propagate() step == w |I| max(0, cos theta) with I, theta written out from the statement", **rec2))
     except Exception as e:   # noqa
@@ -469,6 +471,18 @@ def free_bookkeeping(norb=2, nu=1, nd=1):
                       np.concatenate([hq[0]["V"].s.reshape(-1), hq[1]["V"].s.reshape(-1)]), functions=fns, inputs=inp, t0=t0, note="stored walkers are the orthonormal Q factors"),
            H.identity("C05.fp.overlap", np.asarray(out["overlaps"], dtype=object).reshape(-1), np.array([hon["V"].s[0] * nrm_new], dtype=object), functions=fns, inputs=inp, t0=t0,
                       note="overlaps' = overlap(Q) * norms'  (= overlap of the un-normalised product, by the covariance contract of C13)")]
+    if any(o["status"] == REFUTED for o in res):
+        try:
+            from contracts import native
+            dev, rec = native.free_projection_deviation()
+            for o in res:
+                if o["status"] == REFUTED:
+                    o["replayed"] = bool(dev > 1e-9)
+                    o["witness"] = dict(o.get("witness") or {}, native=rec)
+        except Exception as e:   # noqa
+            for o in res:
+                if o["status"] == REFUTED:
+                    o["witness"] = dict(o.get("witness") or {}, native_error=repr(e)[:300])
     ok_arg = len(calls["ov"]) >= 1 and all((a - b).iszero() for a, b in zip(calls["ov"][0][0].reshape(-1), hq[0]["V"].s.reshape(-1)))
     res.append(ob("C05.fp.overlap.arg", DISCHARGED if ok_arg else REFUTED, kind="bounded", backend="ring", functions=fns,
                   detail="the overlap is evaluated on the orthonormalised walkers returned by the QR"))
